@@ -494,6 +494,10 @@ def oracle_reuse(case, rec):
                 raise Violation('C19/%s/returned-result-aliases-an-input-array' % name,
                                 'the result of the first call changed when the caller overwrote its input arrays')
             second = f(*bufs)
+            now = np.asarray(first.toarray()) if hasattr(first, 'toarray') else first
+            if not same(first_snapshot, now):
+                raise Violation('C19/%s/earlier-result-changed-by-a-later-call' % name,
+                                'the arrays returned by the first call were overwritten when the routine was called again')
             fresh = f(*[b.copy() for b in B])
             keep = np.asarray(fresh.toarray()).copy() if hasattr(fresh, 'toarray') else copy.deepcopy(fresh)
             scribble(fresh)               # the caller edits what it was given back, then asks again
